@@ -47,6 +47,7 @@ MISSING = "missing-dependency"
 CYCLIC = "cyclic"
 MODIFIED_TWICE = "modified-twice"
 ON_VECTOR = "modifying-on-vector"  # "this modifying version ... does not accept a vector"
+NO_PROJECTION = "projection-unsupported"  # argument-level: the region type cannot project
 
 DEFAULT = "default"
 
@@ -203,6 +204,7 @@ class SpecDesc:
     given: Optional[str] = None  # property for `with`
     region_orientation: bool = False  # argument is a region with preferred orientation
     vector_arg: bool = False  # `on <vector>`
+    no_projection: bool = False  # `on <region>` whose type does not implement projection
 
 
 @dataclasses.dataclass(frozen=True)
@@ -213,16 +215,19 @@ class SpecSem:
     modifiable: FrozenSet[str]
     deps: Tuple[str, ...]
     vector_arg: bool
+    no_projection: bool = False
 
     @property
     def prio(self):
         return dict(self.priorities)
 
 
-def semantics(table: Dict[str, Row], d: SpecDesc, mode2D: bool) -> SpecSem:
+def semantics(table: Dict[str, Row], d: SpecDesc, mode2D: bool, oriented: bool = True) -> SpecSem:
+    """oriented: the class being instantiated is OrientedPoint or a subclass of it."""
     title, given = d.title, d.given
-    if mode2D and title == T_WITH and given == "heading":
+    if mode2D and oriented and title == T_WITH and given == "heading":
         # porting.rst: "The specifier `with heading X` is replaced with `facing X`."
+        # (a plain Point has no heading to face: there the text is read as not applying)
         title, given = T_FACING, None
     if title not in table:
         raise DocError(f"specifier form {title!r} not found in specifiers.rst")
@@ -240,7 +245,7 @@ def semantics(table: Dict[str, Row], d: SpecDesc, mode2D: bool) -> SpecSem:
         pr.append((prop, e.priority))
         if e.modifies:
             mod.add(prop)
-    return SpecSem(d.key, title, tuple(pr), frozenset(mod), tuple(row.deps), d.vector_arg)
+    return SpecSem(d.key, title, tuple(pr), frozenset(mod), tuple(row.deps), d.vector_arg, d.no_projection)
 
 
 # ---------------------------------------------------------------------------------
@@ -301,6 +306,7 @@ class Outcome:
     top_tie: bool  # an equal-priority pair exists at the best priority of its property
     priority_conflicts: int  # properties with >= 2 specifiers at different priorities
     detail: str = ""
+    may_refuse_projection: bool = False  # a modifying `on` whose region type cannot project
 
 
 def resolve(sems: List[SpecSem], defaults: Dict[str, Merged], extra_finals=frozenset()) -> Outcome:
@@ -430,6 +436,10 @@ def resolve(sems: List[SpecSem], defaults: Dict[str, Merged], extra_finals=froze
         if sems[m].vector_arg:
             errors.add(ON_VECTOR)
             detail.append("modifying `on` with a vector")
+        elif sems[m].no_projection:
+            # outside the resolution procedure: projecting a *concrete* position fails at
+            # once, projecting a random one only when a scene is sampled
+            out.may_refuse_projection = True
     out.errors = frozenset(errors)
     out.detail = "; ".join(detail)
     return out
